@@ -329,6 +329,7 @@ type vpRunner struct {
 	picks       []*vpPick
 	dead        bool // history ended (panic / stuck)
 	nstuck      int
+	lastPicked  int64
 	parkedPicks []*vpPick
 	hdr         vpOp
 }
@@ -693,6 +694,7 @@ func (r *vpRunner) apply(o vpOp) {
 			p.placed = true
 			p.done = res.r.Done
 			r.picks = append(r.picks, p)
+			r.lastPicked = int64(res.r.SubConn.(*vpSC).id)
 			ret = fmt.Sprintf("picked %d", res.r.SubConn.(*vpSC).id)
 		}
 	case "D":
@@ -932,6 +934,63 @@ func (r *vpRunner) genAndRun(g *vpRng, maxOps int, prop string) {
 					}
 					if !r.dead {
 						r.apply(vpOp{kind: "Z", a: []int64{0}})
+					}
+				}
+				continue
+			case (sc == 2 && g.chance(60) || (prop == "C02" || prop == "C08" || prop == "C01") && sc < 2) && h.a[3] == 1 && nsc >= 2:
+				// stale stand-in: bind K, home goes down, a keyed call falls back to a stand-in, K is
+				// unbound while the stand-in mapping exists, then K is used again (as an unknown key, or re-bound)
+				k := 1 + g.intn(nkeys)
+				before := len(r.picks)
+				r.apply(vpOp{kind: "P", a: []int64{latest, 1, 1, -1, 0}})
+				if !(len(r.picks) > before && r.picks[before].placed) || r.dead {
+					continue
+				}
+				home := int64(-1)
+				if res := r.picks[before]; res != nil {
+					// the connection the BIND call was placed on
+					home = r.lastPicked
+				}
+				r.apply(vpOp{kind: "D", a: []int64{int64(before), 0}, keys: []int{k}})
+				if home < 0 || r.dead {
+					continue
+				}
+				r.apply(vpOp{kind: "C", a: []int64{home, 3}})
+				lp := func() int64 { return int64(len(r.cc.pickers) - 1) }
+				if r.dead || lp() < 0 {
+					continue
+				}
+				r.apply(vpOp{kind: "P", a: []int64{lp(), 2, 1, -1, 0}, keys: []int{k}}) // falls back
+				b2 := len(r.picks)
+				r.apply(vpOp{kind: "P", a: []int64{lp(), 3, 1, -1, 0}, keys: []int{k}}) // UNBIND
+				if len(r.picks) > b2 && r.picks[b2].placed && !r.dead {
+					r.apply(vpOp{kind: "D", a: []int64{int64(b2), 0}})
+				}
+				if g.chance(50) {
+					// K is now unknown: load the channels unevenly, then use K
+					for q := 0; q < 1+g.intn(3) && !r.dead; q++ {
+						r.apply(vpOp{kind: "P", a: []int64{lp(), 0, 1, -1, 0}})
+					}
+					if len(placed) > 0 && g.chance(50) && !r.dead {
+						r.apply(vpOp{kind: "D", a: []int64{int64(placed[g.intn(len(placed))]), 0}})
+					}
+					if !r.dead {
+						r.apply(vpOp{kind: "P", a: []int64{lp(), 2, 1, -1, 0}, keys: []int{k}})
+					}
+				} else {
+					// re-bind K (possibly on another channel), then use it
+					if g.chance(50) && !r.dead {
+						r.apply(vpOp{kind: "P", a: []int64{lp(), 0, 1, -1, 0}})
+					}
+					b3 := len(r.picks)
+					if !r.dead {
+						r.apply(vpOp{kind: "P", a: []int64{lp(), 1, 1, -1, 0}})
+					}
+					if len(r.picks) > b3 && r.picks[b3].placed && !r.dead {
+						r.apply(vpOp{kind: "D", a: []int64{int64(b3), 0}, keys: []int{k}})
+						for q := 0; q < 2 && !r.dead; q++ {
+							r.apply(vpOp{kind: "P", a: []int64{lp(), 2, 1, -1, 0}, keys: []int{k}})
+						}
 					}
 				}
 				continue
